@@ -41,8 +41,17 @@ func (s *State) Persist() error {
 	}
 	return s.config.storage.Save(s.name, s.snapshot, s.events)
 }
+
+// Load 加载已持久化的快照及事件，并将其作为当前运行时状态的起点
+//   - 重新创建的持久化对象（例如停止后以相同持久化名称再次创建的 Actor）的运行时状态为空，若不以已加载的内容作为起点，那么下一次 Persist 将覆盖掉此前所有的历史记录
 func (s *State) Load() (snapshot Snapshot, events []Event, err error) {
-	return s.config.storage.Load(s.name)
+	snapshot, events, err = s.config.storage.Load(s.name)
+	if err != nil {
+		return
+	}
+	s.snapshot = snapshot
+	s.events = append(s.events[:0:0], events...)
+	return
 }
 
 func (s *State) Clear() error {
